@@ -629,6 +629,35 @@ fn k_zl_1_ownership_is_checked_against_the_innermost_query() {
     std::mem::forget(l);
 }
 
+/// The handle has become the unique writer of `page` for `ingredient` (what `allocate_cold` records).
+pub(crate) fn remember_page(l: &mut ZalsaLocal, ingredient: IngredientIndex, page: crate::table::PageIndex) {
+    l.most_recent_pages.get_mut().insert(ingredient, page);
+}
+
+//@ob id=K-ZL-3 kind=C props=C24 timeout=900 fn=ZalsaLocal::record_unfilled_pages,Table::record_unfilled_page,Table::take_non_full_page
+//@ pre: a handle's local state remembers an unfilled page (any page number) for an ingredient and hands its pages over (`record_unfilled_pages`)
+//@ post: the pool then hands that page out exactly once to later handles, and never for another ingredient.  (That the hand-over happens once per handle is K-ST-2a/2b; whether the local state still remembers the page afterwards is deliberately not part of this contract - the state is discarded by both callers.)  One remembered page only: with two, CBMC's SAT back end runs out of memory (the pool's keys are then read back from the heap)
+#[cfg_attr(kani, kani::proof)]
+#[cfg_attr(kani, kani::unwind(5))]
+#[cfg_attr(salsa_verif_replay, test)]
+fn k_zl_3_unfilled_pages_reach_the_pool_once() {
+    use crate::table::verif::{page_index, take_recycled};
+    let t = Table::default();
+    let mut l = ZalsaLocal::new();
+    let (i0, i1) = (IngredientIndex::new(0), IngredientIndex::new(1));
+    let n0: usize = vk::any();
+    vk::assume(n0 < 64);
+    remember_page(&mut l, i0, page_index(n0));
+    l.record_unfilled_pages(&t);
+    assert!(take_recycled(&t, i1).is_none());
+    let a = take_recycled(&t, i0);
+    assert!(a.map(|p| p.as_usize()) == Some(n0));
+    assert!(take_recycled(&t, i0).is_none());
+    vcover!();
+    std::mem::forget(t);
+    std::mem::forget(l);
+}
+
 impl ZalsaLocal {
     /// Stand-in for `active_query_with_cycle_heads` in harnesses whose creator query is **not** inside a
     /// cycle: same key and stamp (from the real query stack), statically empty cycle heads.
@@ -667,3 +696,4 @@ pub(crate) fn top_frame_is_untracked(l: &ZalsaLocal) -> bool {
     // SAFETY: not reentrant
     unsafe { l.with_query_stack_unchecked(|stack| crate::active_query::verif::is_untracked(stack.last().unwrap())) }
 }
+
